@@ -63,6 +63,14 @@ def expectations() -> list:
         grid.append((['partial', 'open', n], 'OPENSENT', {(5, 1), (4, 0)}))
     for kind, n in (('keepalive', 10), ('update', 19), ('update', 30)):
         grid.append((['partial', kind, n], 'ESTABLISHED', {(4, 0)}))
+    # OPERATIONAL (type 6, draft-ietf-idr-operational-message; the capability is not negotiated here): a message type exabgp knows.
+    # Ignoring it, refusing the type (1/3) or the FSM error of the state are all defensible; closing without a word is not
+    for body in ('', '00010009000100010a00000041', 'ffff0000'):
+        raw = (codec.MARKER + (19 + len(body) // 2).to_bytes(2, 'big') + b'\x06' + bytes.fromhex(body)).hex()
+        grid.append((['raw', raw], 'OPENSENT', {(5, 1), (1, 3), (5, 0), (1, 2)}))
+        grid.append((['raw', raw], 'OPENCONFIRM', {(5, 2), (1, 3), (5, 0), (1, 2)}))
+        for s in ('ESTABLISHED', 'ESTABLISHED-BATCH'):
+            grid.append((['raw', raw], s, {(1, 3), (5, 3), (5, 0), (1, 2), NONE_AND_UP}))
     # a received NOTIFICATION is never answered
     for s in STATES:
         grid.append((['notif', 6, 2], s, {NONE_AND_CLOSE}))
@@ -72,6 +80,7 @@ def expectations() -> list:
 
 
 GRID = expectations()
+_EXPECTED = {(repr(list(f)), s): e for f, s, e in GRID}
 
 
 def fixed_cases() -> list:
@@ -90,7 +99,10 @@ def cases(draw):
 
 
 def check(case: dict) -> dict:
-    expected = GRID[case['grid']][2]
+    # looked up by (fault, state), not by position: a stored case keeps its meaning when rows are added to the grid
+    expected = _EXPECTED.get((repr(list(case['fault'])), case['state']))
+    if expected is None:
+        raise RuntimeError(f'harness: no grid row for {case["fault"]} @ {case["state"]}')
     state = case['state']
     res: dict = {}
 
